@@ -4,6 +4,7 @@
   relative to the ticker, the re-check and the send.
 -/
 import BB.Model.Attempt
+import BB.Core.Fair
 
 namespace BB.Props.C20
 open BB.Attempt BB.LTS
@@ -224,6 +225,183 @@ theorem cancelled_goroutine_not_stuck (count : Nat) (pre : Bool) (s : St) (h : R
   | top => exact ⟨.ctxdone, by simp, by simp, by simp [step, hp, hc]⟩
   | ticked t => exact ⟨.recheck, by simp, by simp, by simp [step, hp, hc]⟩
   | checked t => exact ⟨.trysend, by simp, by simp, by simp only [step, hp]; cases s.buf <;> simp <;> split <;> simp⟩
+
+/-! ### Liveness: "always closed promptly after the context is cancelled" as a leads-to theorem -/
+
+/-- the producing goroutine's own steps (everything except the environment's cancel and the receiver's recv) -/
+def goroutineStep (a : Act) : Prop := a ≠ .recv ∧ a ≠ .cancel
+
+/-- distance of the goroutine from its exit once the context is cancelled -/
+def exitRank (s : St) : Nat :=
+  match s.pc with
+  | .checked _ => 3
+  | .top => 2
+  | .ticked _ => 1
+  | _ => 0
+
+theorem cancelled_stable (s : St) (a : Act) (s' : St) (hs : step s a = some s') (hc : s.cancelled = true) : s'.cancelled = true := by
+  cases a <;> simp only [step] at hs
+  case cancel => cases hs; rfl
+  case recv => split at hs <;> cases hs; exact hc
+  case tick => split at hs <;> cases hs; exact hc
+  case ctxdone => split at hs <;> cases hs; exact hc
+  case recheck =>
+    split at hs
+    · split at hs <;> cases hs <;> exact hc
+    · cases hs
+  case trysend =>
+    split at hs
+    · split at hs
+      · split at hs <;> cases hs <;> exact hc
+      · cases hs; exact hc
+    · cases hs
+
+/-- ALWAYS CLOSED AFTER CANCELLATION.  Along every run in which the goroutine is scheduled weakly fairly (no assumption
+    about the receiver: it may be arbitrarily slow or gone), from every point on a state is reached in which the context
+    is not cancelled or the channel is closed and the goroutine has exited — the rank drops 3 → 2 → 1 → exit, at most one
+    more tick is taken. -/
+theorem cancelled_leadsTo_closed (count : Nat) (pre : Bool) (r : Run (sys count pre))
+    (hfair : WeakFair (sys count pre) (fun _ a => goroutineStep a) r) :
+    ∀ i, ∃ j, i ≤ j ∧ ((r.st j).cancelled = false ∨ ((r.st j).closed = true ∧ ((r.st j).pc = .exited ∨ (r.st j).pc = .none))) := by
+  apply leadsTo (sys count pre) (fun _ a => goroutineStep a) r (Inv count)
+    (fun s => s.cancelled = false ∨ (s.closed = true ∧ (s.pc = .exited ∨ s.pc = .none))) exitRank hfair
+    (fun i => inv_reach count pre _ (run_reach _ r i))
+  · -- a goroutine step is enabled
+    intro s hi hg
+    have hc : s.cancelled = true := by cases h : s.cancelled <;> simp_all
+    cases hp : s.pc with
+    | none => exact absurd (Or.inr ⟨hi.noneC hp, Or.inr hp⟩) hg
+    | exited => exact absurd (Or.inr ⟨hi.exitedC hp, Or.inl hp⟩) hg
+    | top => exact ⟨.ctxdone, ⟨by simp, by simp⟩, by simp [enabled, sys, step, hp, hc]⟩
+    | ticked t => exact ⟨.recheck, ⟨by simp, by simp⟩, by simp [enabled, sys, step, hp, hc]⟩
+    | checked t =>
+      refine ⟨.trysend, ⟨by simp, by simp⟩, ?_⟩
+      simp only [enabled, sys, step, hp]; cases s.buf <;> simp <;> split <;> simp
+  · -- no step increases the rank
+    intro s a s' hi hg hs
+    have hc : s.cancelled = true := by cases h : s.cancelled <;> simp_all
+    cases a <;> simp only [sys, step] at hs
+    case cancel => cases hs; right; simp [exitRank]
+    case recv => split at hs <;> cases hs; right; simp [exitRank]
+    case tick =>
+      split at hs
+      · rename_i hp; cases hs; right; simp [exitRank, hp]
+      · cases hs
+    case ctxdone => split at hs <;> cases hs; left; right; simp
+    case recheck =>
+      split at hs
+      · rw [hc] at hs; simp only [↓reduceIte] at hs; cases hs; left; right; simp
+      · cases hs
+    case trysend =>
+      split at hs
+      · rename_i t hp
+        split at hs
+        · split at hs
+          · cases hs; left; right; simp
+          · cases hs; right; simp [exitRank, hp]
+        · cases hs; right; simp [exitRank, hp]
+      · cases hs
+  · -- every goroutine step decreases it (or closes)
+    intro s a s' hi hg hH hs
+    have hc : s.cancelled = true := by cases h : s.cancelled <;> simp_all
+    cases a <;> simp only [sys, step] at hs
+    case cancel => exact absurd rfl hH.2
+    case recv => exact absurd rfl hH.1
+    case tick =>
+      split at hs
+      · rename_i hp; cases hs; right; simp [exitRank, hp]
+      · cases hs
+    case ctxdone => split at hs <;> cases hs; left; right; simp
+    case recheck =>
+      split at hs
+      · rw [hc] at hs; simp only [↓reduceIte] at hs; cases hs; left; right; simp
+      · cases hs
+    case trysend =>
+      split at hs
+      · rename_i t hp
+        split at hs
+        · split at hs
+          · cases hs; left; right; simp
+          · cases hs; right; simp [exitRank, hp]
+        · cases hs; right; simp [exitRank, hp]
+      · cases hs
+
+/-- corollary in the words of the property: once the context is cancelled, the channel is eventually closed and the
+    producing goroutine has exited, however slow the receiver is -/
+theorem closed_promptly_after_cancel (count : Nat) (pre : Bool) (r : Run (sys count pre))
+    (hfair : WeakFair (sys count pre) (fun _ a => goroutineStep a) r) (i : Nat) (hc : (r.st i).cancelled = true) :
+    ∃ j, i ≤ j ∧ (r.st j).closed = true ∧ ((r.st j).pc = .exited ∨ (r.st j).pc = .none) := by
+  obtain ⟨j, hj, hg⟩ := cancelled_leadsTo_closed count pre r hfair i
+  have hstable : ∀ k, (r.st (i + k)).cancelled = true := by
+    intro k
+    induction k with
+    | zero => exact hc
+    | succ k ih =>
+      have hn := r.next (i + k)
+      cases ha : r.act (i + k) with
+      | none => simp only [ha] at hn; rw [show i + (k + 1) = i + k + 1 by omega, hn]; exact ih
+      | some a => simp only [ha] at hn; rw [show i + (k + 1) = i + k + 1 by omega]; exact cancelled_stable _ a _ hn ih
+  have hcj : (r.st j).cancelled = true := by have := hstable (j - i); rwa [show i + (j - i) = j by omega] at this
+  rcases hg with hg | hg
+  · rw [hcj] at hg; cases hg
+  · exact ⟨j, hj, hg⟩
+
+/-! a weakly fair run to which the theorem applies: count 3, one tick forwarded, cancellation while the goroutine waits,
+    the goroutine takes ctx.Done() and exits; afterwards the run stutters -/
+def demoActs : Nat → Option Act
+  | 0 => some .tick | 1 => some .recheck | 2 => some .trysend | 3 => some .cancel | 4 => some .ctxdone | _ => none
+
+def demoSt : Nat → St
+  | 0 => start 3 false
+  | n + 1 => match demoActs n with
+    | some a => (step (demoSt n) a).getD (demoSt n)
+    | none => demoSt n
+
+theorem demoSt_final (k : Nat) : demoSt (k + 5) = demoSt 5 := by
+  induction k with
+  | zero => rfl
+  | succ k ih => show demoSt (k + 5) = demoSt 5; exact ih
+
+def demoRun : Run (sys 3 false) where
+  st := demoSt
+  act := demoActs
+  start := rfl
+  next := by
+    intro i
+    match i with
+    | 0 => show (sys 3 false).step (demoSt 0) _ = some (demoSt 1); decide
+    | 1 => show (sys 3 false).step (demoSt 1) _ = some (demoSt 2); decide
+    | 2 => show (sys 3 false).step (demoSt 2) _ = some (demoSt 3); decide
+    | 3 => show (sys 3 false).step (demoSt 3) _ = some (demoSt 4); decide
+    | 4 => show (sys 3 false).step (demoSt 4) _ = some (demoSt 5); decide
+    | k + 5 => rfl
+
+theorem demoRun_fair : WeakFair (sys 3 false) (fun _ a => goroutineStep a) demoRun := by
+  intro i hen
+  by_cases hi : i < 5
+  · by_cases h3 : i = 3
+    · subst h3; exact ⟨4, by omega, _, rfl, ⟨by decide, by decide⟩⟩
+    · refine ⟨if i ≤ 2 then i else 4, by split <;> omega, ?_⟩
+      match i, hi, h3 with
+      | 0, _, _ => exact ⟨_, rfl, ⟨by decide, by decide⟩⟩
+      | 1, _, _ => exact ⟨_, rfl, ⟨by decide, by decide⟩⟩
+      | 2, _, _ => exact ⟨_, rfl, ⟨by decide, by decide⟩⟩
+      | 4, _, _ => exact ⟨_, rfl, ⟨by decide, by decide⟩⟩
+  · exfalso
+    obtain ⟨a, hH, he⟩ := hen i (Nat.le_refl _)
+    have hst : demoRun.st i = demoSt 5 := by
+      have := demoSt_final (i - 5); rwa [show i - 5 + 5 = i by omega] at this
+    rw [hst] at he
+    cases a with
+    | cancel => exact hH.2 rfl
+    | recv => exact hH.1 rfl
+    | tick => exact absurd he (by unfold enabled; decide)
+    | ctxdone => exact absurd he (by unfold enabled; decide)
+    | recheck => exact absurd he (by unfold enabled; decide)
+    | trysend => exact absurd he (by unfold enabled; decide)
+
+example : ∃ j, 4 ≤ j ∧ (demoRun.st j).closed = true ∧ ((demoRun.st j).pc = .exited ∨ (demoRun.st j).pc = .none) :=
+  closed_promptly_after_cancel 3 false demoRun demoRun_fair 4 (by decide)
 
 /-! non-vacuity: count 3, slow receiver (one tick is dropped), cancellation between the re-check and the send -/
 example : ((sys 3 false).run (start 3 false) [.tick, .recheck, .trysend, .recv, .tick, .recheck, .cancel, .trysend, .ctxdone]).map
